@@ -46,6 +46,9 @@ func init() {
 		key := rsaKey(ki)
 		i2 := type2.NewBasicPublicIssuer(key)
 		i3 := type3.NewRateLimitedIssuer(key)
+		// a caller that writes into the id it was given must not change what the issuer reports afterwards
+		scribble(i2.TokenKeyID())
+		scribble(i3.TokenKeyID())
 		if !bytes.Equal(i2.TokenKeyID(), i3.TokenKeyID()) {
 			return "err-type2-type3-differ"
 		}
@@ -60,6 +63,7 @@ func init() {
 		seed := unhx(a[2])
 		if a[1] == "1" {
 			iss := type1.NewBasicPrivateIssuer(oprfKey(oprf.SuiteP384, seed))
+			scribble(iss.TokenKeyID())
 			st, err := type1.NewBasicPrivateClient().CreateTokenRequest([]byte("c"), bytes.Repeat([]byte{1}, 32), iss.TokenKeyID(), iss.TokenKey())
 			if err != nil {
 				return "err"
@@ -67,6 +71,7 @@ func init() {
 			return fmt.Sprintf("ok %s %d", hxv(iss.TokenKeyID()), st.Request().TokenKeyID)
 		}
 		iss := type5.NewBatchedPrivateIssuer(oprfKey(oprf.SuiteRistretto255, seed))
+		scribble(iss.TokenKeyID())
 		st, err := type5.NewBatchedPrivateClient().CreateTokenRequest([]byte("c"), [][]byte{bytes.Repeat([]byte{1}, 32)}, iss.TokenKeyID(), iss.TokenKey())
 		if err != nil {
 			return "err"
@@ -101,6 +106,13 @@ func init() {
 		}
 		return "ok " + hxv(k.Marshal()) + " " + hxv(nk)
 	}
+}
+
+func scribble(b []byte) {
+	for i := range b {
+		b[i] ^= 0xa5
+	}
+	_ = append(b[:0], 0xee)
 }
 
 func runC18(c *Ctx) {
